@@ -20,6 +20,7 @@ func verifyFunc(P *Program, con *Contract) (g *Gen, err error) {
 		return nil, fmt.Errorf("%s has no body", con.Key)
 	}
 	g = newGen(P, con.Mode, con.Pkg)
+	g.noAssume = P.NoAssume
 	g.curFunc = shortKey(con.Key)
 	ex := newExec(g, fn, con)
 	defer func() {
@@ -760,8 +761,10 @@ func (ex *Exec) postconditions() {
 		o := &Obligation{Name: fmt.Sprintf("%s/post/%s", g.curFunc, e.Label), Func: g.curFunc, Kind: "post", Label: e.Label, Goal: goal, PC: "true",
 			NFacts: len(g.facts), Src: e.Src, Where: fmt.Sprintf("%s:%d", e.File, e.Line), g: g, Expect: "unsat", Props: con.Props}
 		g.obls = append(g.obls, o)
-		// a proved postcondition may be used for the ones listed after it
-		g.addFact(goal)
+		// a proved postcondition may be used for the ones listed after it (never a recorded known finding)
+		if !g.noAssume[o.Name] {
+			g.addFact(goal)
+		}
 	}
 	// propagates: error of call k non-nil (and call not re-executed) ==> function's error result non-nil
 	for _, pr := range con.Propag {
